@@ -94,3 +94,39 @@ pub fn entry_script(ops: &[u8], errs: Vec<Error>) -> Result<Vec<u8>, Error> {
     }
     acc.finish_with(log)
 }
+
+// ------------------------------------------------------------------ C04: error trees
+pub fn entry_len(e: &Error) -> usize {
+    e.len()
+}
+pub fn entry_flatten(e: Error) -> Error {
+    e.flatten()
+}
+pub fn entry_flatten_twice(e: Error) -> Error {
+    e.flatten().flatten()
+}
+pub fn entry_multiple(v: Vec<Error>) -> Error {
+    Error::multiple(v)
+}
+pub fn entry_at(e: Error, loc: String) -> Error {
+    e.at(loc)
+}
+pub fn entry_display(e: &Error) -> String {
+    e.to_string()
+}
+pub fn entry_into_iter(e: Error) -> Vec<Error> {
+    e.into_iter().collect()
+}
+pub fn entry_clone(e: &Error) -> Error {
+    e.clone()
+}
+pub fn entry_to_syn(e: Error) -> Vec<(String, proc_macro2::Span)> {
+    let s: syn::Error = e.into();
+    s.into_iter().map(|x| (x.to_string(), x.span())).collect()
+}
+pub fn entry_with_span_twice(e: Error, a: &proc_macro2::Ident, b: &proc_macro2::Ident) -> Error {
+    e.with_span(a).with_span(b)
+}
+pub fn entry_has_span(e: &Error) -> (bool, Option<proc_macro2::Span>) {
+    (e.has_span(), e.explicit_span())
+}
